@@ -125,6 +125,29 @@ class SolverShape:
             raise Unsupported(f'{qualname}: pass loop is not a `for <name> in ...` loop')
         self.counter = self.loop.ast.target.id
 
+    @property
+    def flags(self):
+        """Path-sensitive valuation of the function's flag locals (fsa/pathsens.py)."""
+        if getattr(self, '_flags', None) is None:
+            from fsa.pathsens import Flags
+            self._flags = Flags(self.cfg, self.fi.params())
+        return self._flags
+
+    def status_member(self, tok) -> Optional[str]:
+        """SolutionStatus member named by an abstract value: `SolutionStatus.X.value`, or a string literal equal
+        to a member's value."""
+        if tok[0] == 'e' and tok[1] == 'SolutionStatus' and tok[3] == 'value':
+            return tok[2]
+        if tok[0] == 'c' and isinstance(tok[2], str):
+            from fsa.consts import fold_enum
+            try:
+                members = fold_enum(self.repo, 'fsic.core.interfaces', 'SolutionStatus')
+            except Exception:
+                return None
+            hits = [k for k, v in members.items() if v == tok[2]]
+            return hits[0] if len(hits) == 1 else None
+        return None
+
     def expand(self, nid: int, e: ast.AST, depth: int = 4, stop=()) -> ast.AST:
         from fsa.match import substitute
         if depth <= 0:
@@ -380,6 +403,29 @@ def _base_name(x: ast.AST) -> Optional[str]:
     return None
 
 
+def comp_element(elt: ast.AST, generators) -> ast.AST:
+    """The element expression of a comprehension with loop targets that merely name an element of the iterated
+    container replaced by a subscript of that container: `v - p[k] for k, v in c.items()` reads `c[k] - p[k]`;
+    `a - b for a, b in zip(x, y)` reads `x[_] - y[_]`."""
+    from fsa.match import substitute
+    mapping = {}
+    for g in generators:
+        it, tg = g.iter, g.target
+        if isinstance(it, ast.Call) and isinstance(it.func, ast.Attribute) and not it.args and isinstance(it.func.value, ast.Name):
+            base = it.func.value
+            if it.func.attr == 'items' and isinstance(tg, ast.Tuple) and len(tg.elts) == 2 and all(isinstance(e, ast.Name) for e in tg.elts):
+                mapping[tg.elts[1].id] = ast.Subscript(value=ast.Name(id=base.id, ctx=ast.Load()), slice=ast.Name(id=tg.elts[0].id, ctx=ast.Load()), ctx=ast.Load())
+            elif it.func.attr == 'values' and isinstance(tg, ast.Name):
+                mapping[tg.id] = ast.Subscript(value=ast.Name(id=base.id, ctx=ast.Load()), slice=ast.Name(id='_', ctx=ast.Load()), ctx=ast.Load())
+        elif isinstance(it, ast.Call) and dotted(it.func) == 'zip' and isinstance(tg, ast.Tuple) and len(tg.elts) == len(it.args):
+            for e, a in zip(tg.elts, it.args):
+                if isinstance(a, ast.Call) and isinstance(a.func, ast.Attribute) and a.func.attr == 'values' and not a.args:
+                    a = a.func.value
+                if isinstance(e, ast.Name) and isinstance(a, ast.Name):
+                    mapping[e.id] = ast.Subscript(value=ast.Name(id=a.id, ctx=ast.Load()), slice=ast.Name(id='_', ctx=ast.Load()), ctx=ast.Load())
+    return substitute(elt, mapping) if mapping else elt
+
+
 def check_convergence(R, sh: SolverShape) -> None:
     from fsa.match import abs_arg
 
@@ -429,10 +475,10 @@ def check_convergence(R, sh: SolverShape) -> None:
             site, cur_expr = vals[0]
             continue
         if isinstance(cur_expr, ast.DictComp):
-            cur_expr = cur_expr.value
+            cur_expr = comp_element(cur_expr.value, cur_expr.generators)
             continue
         if isinstance(cur_expr, (ast.ListComp, ast.GeneratorExp)):
-            cur_expr = cur_expr.elt
+            cur_expr = comp_element(cur_expr.elt, cur_expr.generators)
             continue
         break
     squared = False
